@@ -61,8 +61,8 @@ class B64Text:
         return f'B64Text({self.payload!r})'
 
 
-def mk_interp(prog):
-    it = install(Interp(prog))
+def mk_interp(prog, orc=None):
+    it = install(Interp(prog, orc))
 
     def ext_hook(dotted, args, kw, n):
         last = dotted.split('.')[-1]
@@ -151,12 +151,20 @@ def check(run):
         if not thorough and wc not in edge:
             variants = [variants[(wc + 128) % 8], variants[(wc + 131) % 8]]
         for bounce, test, url in variants:
-            it = mk_interp(prog)
+          # every path of render + parse (a parser that inspects the text may fork on what the unknown id makes of it)
+          orc = Oracle()
+          npaths = 0
+          while True:
+            orc.pos = 0
+            npaths += 1
+            it = mk_interp(prog, orc)
             h = H32()
-            tag = f'wc={wc},bounce={int(bounce)},test={int(test)},urlsafe={int(url)}'
+            tag = f'wc={wc},bounce={int(bounce)},test={int(test)},urlsafe={int(url)}' + (f' [path {orc.describe()[:80]}]' if orc.choices else '')
+            rendered = False
             try:
                 a = new_addr(it, prog, wc, h)
                 text = cm.call_method(it, a, 'to_str', K(True), K(url), K(bounce), K(test))
+                rendered = True
                 ok_layout, why = False, ''
                 if isinstance(text, B64Text) and isinstance(text.payload, Rope):
                     parts = text.payload.parts
@@ -175,8 +183,10 @@ def check(run):
                 ok_eq = isinstance(eq, K) and eq.v is True
                 why_rt = f'parsed wc={vrepr(got[0])}, id={"H" if got[1] is h else vrepr(got[1])[:30]}, bounceable={vrepr(got[2])}, test_only={vrepr(got[3])}, equal={vrepr(eq)}'
             except RaiseEx as e:
-                ok_layout = ok_rt = ok_eq = False
-                why = why_rt = f'raises {e}'
+                ok_rt = ok_eq = False
+                why_rt = f'the rendered text is refused by the parser: {e}' if rendered else f'raises {e}'
+                if not rendered:
+                    ok_layout, why = False, why_rt
             run.evaluations += 1
             good = ok_layout and ok_rt and ok_eq
             if good:
@@ -188,6 +198,8 @@ def check(run):
                         run.fail('D1', 'Address.to_str[layout]', f'{tag}: {why}; expected tag {spec_tag(bounce, test):#x} | wc | id | crc16(first 34 bytes)', w_str, witness=dict(wc=wc, bounce=bounce, test=test, urlsafe=url))
                     else:
                         run.fail('D1', 'Address.is_b64[round trip]', f'{tag}: {why_rt}', w_b64, witness=dict(wc=wc, bounce=bounce, test=test, urlsafe=url))
+            if npaths >= 16 or not orc.next_path():
+                break
         # raw form
         it = mk_interp(prog)
         h = H32()
